@@ -184,6 +184,34 @@ CHECKS = {
         "peer part (b) is not included yet.",
         "Trusted: the independent reference decode; both answers accepted where RFC 9113 leaves the layer open.",
     ),
+    "C02": (
+        "fault_enumeration",
+        "exactly-once + cause-to-status + bounded-progress monitor over an enumerated backend fault catalogue on a live worker",
+        "DESIGN.md section 3 C02, Appendix A",
+        "1322 scenarios per quick run on real workers with 1-2 s timeouts: every routing outcome of the statement x 3 fronts "
+        "(H1/TCP, H1/TLS, H2/TLS) x {single, keep-alive position, 2..8 H2 streams}; backend close at EVERY offset of a short "
+        "response for 4 framings (exhaustive sweeps), RST, stalls at 5 stages, garbage, idle-close races, slow clients, h2c "
+        "backend faults (RST_STREAM, GOAWAY, close, silence, no SETTINGS ack), faults during uploads. Per request id: exactly "
+        "one answer, status matching the injected cause, no truncated body presented as complete, siblings intact, answer "
+        "within the governing timeout + slack (a miss is re-run alone before counting).",
+        "Trusted: scripted backends' own record of what they sent; causes the statement does not name are recorded under "
+        "exempt/ and not judged; the connection-wide GOAWAY after a per-stream default answer is a known finding (asserted "
+        "by an existing test).",
+    ),
+    "C16": (
+        "exploration",
+        "baseline-conservation + admission-bound monitor on hook ground truth of a live worker",
+        "DESIGN.md section 3 C16",
+        "Mixes of 37 session outcome classes (H1/TLS/H2/TCP/WebSocket: complete, client abort at every phase, backend "
+        "failure catalogue, timeouts, TLS handshake failures, eviction) and storms of 2-5x max_connections on real workers: "
+        "after each mix, once all harness sockets are closed, the end-of-iteration snapshot (connections, slab, pool, per-"
+        "backend counters, per-(cluster,IP) maps, accept queue) must equal the pre-mix baseline and agree with QueryMetrics; "
+        "gauge-underflow counter 0; at no iteration nb_connections > max_connections and the backends never hold more "
+        "requests than max_connections; accept resumes; per-IP limits (incl. runtime changes) hold; idle/stuck sessions are "
+        "reclaimed within their timeouts (misses re-run alone).",
+        "Trusted: hook H3/H6 values as ground truth; leak signatures carry the outcome class; an unmatched decrement is "
+        "invisible once no leak has raised the counter (saturating subtraction).",
+    ),
 }
 
 ALL = ["C%02d" % i for i in range(1, 21)]
